@@ -11,7 +11,7 @@ use vx_bounded::cli;
 const SCHEMA: &str = "type Query { k: K l: L p: P j: J m: M i2: I2 u: U v: V w: W a1: A1 b1: B1 c1: C1 x: Int arg(req: Int!, opt: Int, e: E, i: I, l: [Int!]): Int arg2(opt: Int, req: Int!, last: Int): Int arg3(l: [ID!], m: [[Int!]], n: [String!]! = [], o: [I!]): Int }\n\
 interface A1 { a: Int }\ninterface B1 { a: Int }\ninterface C1 implements A1 & B1 { a: Int }\ntype OA implements A1 { a: Int }\ntype OB implements B1 { a: Int }\n\
 type Subscription { a: Int b: Int c(n: Int): K }\n\
-type Mutation { mu: Int }\nenum E { A B }\ninput I { r: Int! o: Int }\ndirective @once on FIELD\ndirective @many repeatable on FIELD | QUERY\ndirective @onq on QUERY\ndirective @tag2(label: String, id: ID!, l: [ID!]) on FIELD\n\
+type Mutation { mu: Int }\nenum E { A B }\ninput I { r: Int! o: Int }\ndirective @once on FIELD\ndirective @many repeatable on FIELD | QUERY\ndirective @onq on QUERY\ndirective @tag2(label: String, id: ID!, l: [ID!]) on FIELD\ndirective @fd(x: Int) repeatable on FRAGMENT_DEFINITION\ndirective @fd1 on FRAGMENT_DEFINITION\n\
 interface J { id: ID }\ninterface M implements J { id: ID mm: Int }\ninterface I2 { z: Int }\n\
 type K implements J { id: ID kk: Int }\ntype L { ll: Int }\ntype P implements M & J { id: ID mm: Int }\n\
 union U = K | L\nunion V = L\nunion W = P\n";
@@ -275,6 +275,16 @@ fn rule_cases() -> Vec<Case> {
     add("directives are not repeated unless repeatable", "{ x @once @once }", false);
     add("directives are not repeated unless repeatable", "{ x @skip(if: true) @skip(if: false) }", false);
     add("directives are not repeated unless repeatable", "{ x @many @many @once }", true);
+    add("directives on fragment definitions", "query Q($v: Int) { k { ...F } }\nfragment F on K @fd(x: $v) { id }", true);
+    add("directives on fragment definitions", "{ k { ...F ...G } }\nfragment F on K @fd(x: 1) @fd @fd1 { id }\nfragment G on K { kk }", true);
+    add("directives on fragment definitions", "{ k { ...F } }\nfragment F on K @nope { id }", false);
+    add("directives on fragment definitions", "{ k { ...F } }\nfragment F on K @skip(if: true) { id }", false);
+    add("directives on fragment definitions", "{ k { ...F } }\nfragment F on K @fd1 @fd1 { id }", false);
+    add("directives on fragment definitions", "{ k { ...F } }\nfragment F on K @fd(x: \"s\") { id }", false);
+    add("directives on fragment definitions", "{ k { ...F } }\nfragment F on K @fd(x: $nope) { id }", false);
+    add("directives on fragment definitions", "{ k { ...G } }\nfragment G on K { ...F }\nfragment F on K @once { id }", false);
+    add("variables are type-compatible with their use", "query Q($a: Int = null) { arg(req: $a) }", false);
+    add("variables are type-compatible with their use", "query Q($a: [Int!] = null) { arg(req: 1, l: $a) }", true);
     add("directive arguments", "{ x @skip }", false);
     add("directive arguments", "{ x @include(if: 1) }", false);
     add("directive arguments", "{ x @skip(if: true, unless: false) }", false);
